@@ -8,7 +8,8 @@
 #ifndef VP_TASKQ_ENV_H
 #define VP_TASKQ_ENV_H
 
-/* ---- mutexes: include/env_sync.h with a third slot ---------------------- */
+/* ---- mutexes: include/env_sync.h with a third slot; a slot is released on unlock, so
+ * "no lock held" <=> all slots empty (VP_LOCKS_CLEAR is then an invariant between calls) ---- */
 void nni_mtx_init(nni_mtx *m) { (void) m; }
 void nni_mtx_fini(nni_mtx *m)
 {
@@ -19,18 +20,17 @@ void
 nni_mtx_lock(nni_mtx *m)
 {
 	g_lock_ops++;
-	if (g_mtx_a == NULL || g_mtx_a == m) {
-		g_mtx_a = m;
-		__CPROVER_assert(!g_held_a, "lock: mutex already held by this call chain (self-deadlock)");
+	/* the slots are the set of mutexes currently held by this call chain */
+	__CPROVER_assert(!VP_HELD(m), "lock: mutex already held by this call chain (self-deadlock)");
+	if (!g_held_a) {
+		g_mtx_a  = m;
 		g_held_a = true;
-	} else if (g_mtx_b == NULL || g_mtx_b == m) {
-		g_mtx_b = m;
-		__CPROVER_assert(!g_held_b, "lock: mutex already held by this call chain (self-deadlock)");
+	} else if (!g_held_b) {
+		g_mtx_b  = m;
 		g_held_b = true;
 	} else {
-		__CPROVER_assert(g_mtx_c == NULL || g_mtx_c == m, "lock: more than three distinct mutexes (model limit)");
-		g_mtx_c = m;
-		__CPROVER_assert(!g_held_c, "lock: mutex already held by this call chain (self-deadlock)");
+		__CPROVER_assert(!g_held_c, "lock: more than three mutexes held at once (model limit)");
+		g_mtx_c  = m;
 		g_held_c = true;
 	}
 }
@@ -38,15 +38,16 @@ void
 nni_mtx_unlock(nni_mtx *m)
 {
 	g_lock_ops++;
-	if (m == g_mtx_a) {
-		__CPROVER_assert(g_held_a, "unlock of a mutex that is not held");
+	__CPROVER_assert(VP_HELD(m), "unlock of a mutex that is not held");
+	if (g_held_a && m == g_mtx_a) {
 		g_held_a = false;
-	} else if (m == g_mtx_b) {
-		__CPROVER_assert(g_held_b, "unlock of a mutex that is not held");
+		g_mtx_a  = NULL;
+	} else if (g_held_b && m == g_mtx_b) {
 		g_held_b = false;
+		g_mtx_b  = NULL;
 	} else {
-		__CPROVER_assert(m == g_mtx_c && g_held_c, "unlock of a mutex that is not held");
 		g_held_c = false;
+		g_mtx_c  = NULL;
 	}
 }
 #define VP_HAVOC_SYNC() do { g_mtx_a = NULL; g_mtx_b = NULL; g_mtx_c = NULL; g_held_a = false; g_held_b = false; g_held_c = false; g_lock_ops = 0; } while (0)
@@ -80,7 +81,7 @@ void nni_cv_wait(nni_cv *cv)
 	__CPROVER_assert(cv == g_cv_task0 || cv == g_cv_sched || cv == g_cv_drain,
 	    "cv: one of the condition variables of the objects under study");
 	__CPROVER_assert(VP_HELD((nni_mtx *) cv->mtx), "cv wait with the cv's own mutex held");
-	g_cv_waits++;
+	g_cv_waited = true;
 	if (cv == g_cv_task0) {
 		/* Sequential stand-in for everything other threads may do to the counter while
 		 * this thread sleeps (executions finishing, new dispatches, spurious wake-up =
@@ -109,7 +110,16 @@ int nni_thr_init(nni_thr *thr, nni_thr_func fn, void *arg)
 }
 void nni_thr_fini(nni_thr *thr) { (void) thr; g_thr_fini++; }
 void nni_thr_run(nni_thr *thr) { (void) thr; g_thr_run++; }
-void nni_thr_set_name(nni_thr *thr, const char *n) { (void) thr; (void) n; }
+void nni_thr_set_name(nni_thr *thr, const char *n)
+{
+	(void) thr; (void) n;
+	/* Only called as the first statement of nni_taskq_thread, which has the same type as a task
+	 * callback and is therefore a syntactic candidate of every indirect call task_cb(arg).
+	 * g_worker_unit is a CONSTANT of each harness: asserting it proves the thread body is never
+	 * entered as a callback; the assume after the (checked) assert only lets symex prune. */
+	__CPROVER_assert(g_worker_unit, "the worker thread body is entered only as a thread, never as a task callback");
+	__CPROVER_assume(g_worker_unit);
+}
 
 void
 nni_panic(const char *fmt, ...)
